@@ -168,17 +168,14 @@ func isNextOnNewLine(t1, t2 Token) bool {
 		return true
 	}
 
-	// TODO:
-	// If the second token is from a different import chain,
-	// we can assume it's from a different line
-	// if len(t1.imports) != len(t2.imports) {
-	// 	return true
-	// }
-	// for i, im := range t1.imports {
-	// 	if im != t2.imports[i] {
-	// 		return true
-	// 	}
-	// }
+	// If the two tokens were brought in by different import expansions
+	// (or only one of them was imported), they are on different lines even
+	// if they carry the same file name and line numbers that happen to
+	// touch: a snippet or file imported twice, a snippet importing another
+	// snippet of the same file, a snippet defined above its point of use.
+	if t1.imp != t2.imp {
+		return true
+	}
 
 	// If the first token (incl line breaks) ends
 	// on a line earlier than the next token,
